@@ -1056,7 +1056,7 @@ func runC21(cfg *hx.RunCfg) (*hx.Result, error) {
 	}
 	n := cfg.N
 	if n == 0 {
-		n = 110
+		n = 80
 		if cfg.Tier == "thorough" {
 			n = 1000
 		}
